@@ -117,6 +117,13 @@ Definition syn_result_old (s : list N) : option (bool * list lexeme) :=
   | _ => None
   end.
 
+(* merge_bit_string_literals before commit f2c0e80 (finding F41): any abstract literal was merged *)
+Definition syn_result_merge_old (s : list N) : option (bool * list lexeme) :=
+  match SynLexer.synlex SynLexer.kw2008 s with
+  | SynLexer.LexOk ts => let m := SynLexer.merge_old ts in Some (syn_clean_of m, syn_lexemes_of m)
+  | _ => None
+  end.
+
 (* ---------- the property on one input ---------- *)
 Definition in_quantifier (s : list N) : bool :=
   latin1 s && clean_lang s && clean_syn s && no_directive s && no_pragma s.
@@ -134,15 +141,16 @@ Definition opt_lexemes_eqb (a b : option (list lexeme)) : bool :=
 Definition agree_on (s : list N) : bool :=
   negb (in_quantifier s) || opt_lexemes_eqb (lexemes_lang s) (lexemes_syn s).
 
-(* ---------- the four places where today's lexers split a clean source differently ---------- *)
+(* ---------- the three places where today's lexers split a clean source differently ---------- *)
 (* (B) vhdl_lang does not know the replacement character ':' of based literals (LRM 15.10) *)
 Fixpoint has_colon_literal (s : list N) : bool :=
   match s with
   | a :: ((b :: c :: _) as r) => (int_char a && (b =? 58) && letter_or_digit c) || has_colon_literal r
   | _ => false
   end.
-(* (C) vhdl_syntax merges ANY abstract literal (real, based, with exponent) with a following base
-   specifier and string into a bit string literal; the LRM allows an integer only *)
+(* (C, repaired by commit f2c0e80, finding F41) vhdl_syntax merged ANY abstract literal (real, based, with
+   exponent) with a following base specifier and string into a bit string literal; the LRM allows an integer
+   only.  `has_nonint_bitstring` is false for every input with the repaired merge *)
 Definition nonint_prefix (t : list N) : bool :=
   match t with
   | c :: _ => digit c && match base_spec_len (snd (span int_char t)) with Some _ => false | None => true end
@@ -167,7 +175,7 @@ Definition has_psl_word (s : list N) : bool :=
 Definition has_crlf_char (s : list N) : bool := contains [39; 13; 10; 39] s.
 
 Definition known_difference (s : list N) : bool :=
-  has_colon_literal s || has_nonint_bitstring s || has_psl_word s || has_crlf_char s.
+  has_colon_literal s || has_psl_word s || has_crlf_char s.
 
 (* all strings of length <= k over an alphabet (for the finite-domain theorems) *)
 Fixpoint strings_exact (alpha : list N) (k : nat) : list (list N) :=
